@@ -744,6 +744,8 @@ def rand_deferral_config(rng):
 
 def rand_code_line(rng, code):
     if code in MERGE_CODES:
+        if rng.random() < 0.07:
+            return code          # a bare code: deferred with an empty argument set, still owed at the exit
         letters = rng.sample(MERGE_LETTERS, rng.randrange(1, 4))
         return code + "".join(" %s%s" % (l, rng.choice([str(rng.randrange(0, 2000)), "0", "0.0",
                                                         "%.2f" % rng.uniform(0, 50), "%.2f" % rng.uniform(0, 50),
